@@ -532,7 +532,8 @@ def qset_domain(interp, sv, st):
         q = z3.Const("q!qo", Qid)
         st.assume(n >= 0,
                   z3.ForAll([j], z3.Implies(z3.And(j >= 0, j < n), z3.And(z3.Select(sv.t, z3.Select(order, j)), z3.Select(idx, z3.Select(order, j)) == j)), patterns=[z3.Select(order, j)]),
-                  z3.ForAll([q], z3.Implies(z3.Select(sv.t, q), z3.And(z3.Select(idx, q) >= 0, z3.Select(idx, q) < n, z3.Select(order, z3.Select(idx, q)) == q)), patterns=[z3.Select(idx, q)]),
+                  z3.ForAll([q], z3.Implies(z3.Select(sv.t, q), z3.And(z3.Select(idx, q) >= 0, z3.Select(idx, q) < n, z3.Select(order, z3.Select(idx, q)) == q)),
+                            patterns=[z3.Select(idx, q), z3.Select(sv.t, q)]),
                   name="set-enumeration")
         cached[key] = (n, order, idx)
     st.env["__qorder__"] = Sym(order, "opaque")
